@@ -61,17 +61,17 @@ type MisbSig struct {
 
 // Op is one operation on the client.
 type Op struct {
-	Label   string  `json:"label"` // stable class label (relative to the state it was generated in)
-	Kind    string  `json:"kind"`  // vm | vnm | hdr | misb | equiv
-	Sig     SigSpec `json:"sig"`
-	Ts      uint64  `json:"ts,omitempty"`       // claimed timestamp (proof / header)
-	Path    string  `json:"path,omitempty"`     // claimed path (vm / vnm)
-	Data    string  `json:"data,omitempty"`     // claimed value (vm)
-	PathLen int     `json:"path_len,omitempty"` // number of merkle path elements handed to the keeper (2 = well formed)
-	Proof   string  `json:"proof,omitempty"`    // "" | nil | garbage | emptysig
-	NewKey  int     `json:"new_key,omitempty"`  // hdr: announced key set
-	NewDiv  string  `json:"new_div,omitempty"`  // hdr: announced diversifier
-	MSeq    uint64  `json:"mseq,omitempty"`     // misb: sequence
+	Label   string   `json:"label"` // stable class label (relative to the state it was generated in)
+	Kind    string   `json:"kind"`  // vm | vnm | hdr | misb | equiv
+	Sig     SigSpec  `json:"sig"`
+	Ts      uint64   `json:"ts,omitempty"`       // claimed timestamp (proof / header)
+	Path    string   `json:"path,omitempty"`     // claimed path (vm / vnm)
+	Data    string   `json:"data,omitempty"`     // claimed value (vm)
+	PathLen int      `json:"path_len,omitempty"` // number of merkle path elements handed to the keeper (2 = well formed)
+	Proof   string   `json:"proof,omitempty"`    // "" | nil | garbage | emptysig
+	NewKey  int      `json:"new_key,omitempty"`  // hdr: announced key set
+	NewDiv  string   `json:"new_div,omitempty"`  // hdr: announced diversifier
+	MSeq    uint64   `json:"mseq,omitempty"`     // misb: sequence
 	M1      *MisbSig `json:"m1,omitempty"`
 	M2      *MisbSig `json:"m2,omitempty"`
 	// equiv: two conflicting signatures the client itself accepts for the current sequence
@@ -761,6 +761,18 @@ func (e *explorer) materialise(hist []Op) (sdk.Context, Ref, map[string]bool, bo
 	return ctx, r, accepted, true
 }
 
+// group is the coarse class of a label (its first two segments) used for the coverage histogram.
+func group(label string) string {
+	parts := strings.Split(label, "/")
+	if parts[0] == "replay" || parts[0] == "replay-with-current-timestamp" {
+		return parts[0]
+	}
+	if len(parts) > 2 {
+		parts = parts[:2]
+	}
+	return strings.Join(parts, "/")
+}
+
 func class(label string) string {
 	// replay labels embed an age; the class drops it so that keys are stable across depths
 	if strings.HasPrefix(label, "replay") {
@@ -792,6 +804,17 @@ func (e *explorer) step(ctx sdk.Context, r Ref, accepted map[string]bool, hist [
 		c.Hist("panics", op.Kind)
 	}
 	c.Hist("outcomes", op.Kind+"/"+res)
+	grp := group(op.Label)
+	if r.Frozen {
+		grp = "frozen-state:" + grp
+	}
+	c.Hist("operation_classes", grp+"/"+res)
+	if strings.HasPrefix(op.Label, "replay/") {
+		c.Add("replays_of_accepted_operations_tried", 1)
+		if !out.ok {
+			c.Add("replays_of_accepted_operations_rejected", 1)
+		}
+	}
 	if !out.ok {
 		if v.mustFreeze {
 			c.Violation("misbehaviour-not-freezing/"+key, fmt.Sprintf("in state (%s) the misbehaviour %s (two signatures by the current key over different data for sequence %d) was rejected: %s%s", r, op.Label, op.MSeq, out.err, out.panic), e.art(hist, op))
@@ -935,7 +958,7 @@ func (e *explorer) run(maxDepth int) {
 			}
 			for _, op := range e.f.alphabet(r, n.hist, e.wide) {
 				nr, changed, child := e.step(ctx, r, accepted, n.hist, op)
-				if len(n.hist) < 3 && (op.Kind != "equiv") && e.transitions%37 == 5 {
+				if op.Kind != "equiv" && e.transitions%1009 == 5 {
 					c.Sample(map[string]any{"signer": e.tag, "state": r.String(), "history": labels(n.hist), "op": op.Label, "successor": nr.String(), "state_changed": changed})
 				}
 				if !changed {
@@ -1016,12 +1039,11 @@ func run(c *core.C) {
 		replay(c)
 		return
 	}
-	depth := core.Pick(c, 5, 7)
-	c.Set("rule", "explicit-state BFS over the real solo machine client; a state is (sequence, timestamp, frozen, public key, diversifier) = the bytes of the client store (bijection checked); every state is expanded with the whole alphabet; operations that fail leave the state unchanged (message atomicity) and are self-loops")
-	explore(c, "single", 1, depth, !c.Quick())
-	if !c.Quick() {
-		explore(c, "multisig", 2, 5, true)
-	}
+	// quick: single key to depth 5 (narrow alphabet), 2-of-2 multisig to depth 3;
+	// thorough: both to depth 7 with the wide alphabet (more valid letters, all earlier sequences).
+	c.Set("rule", "explicit-state BFS over the real solo machine client; a state is (sequence, timestamp, frozen, public key, diversifier) = the bytes of the client store (bijection checked); every state reached by <= depth state-changing operations is expanded with the whole alphabet (valid fresh signatures, every single sign-bytes field mutated, claims mutated, time going back, malformed transport, signatures for every other sequence by either key under either diversifier, verbatim replays of everything accepted on the state's history, misbehaviour in handler format valid/invalid, equivocation with signatures the client itself accepts); operations that fail leave the state unchanged (message atomicity) and are self-loops")
+	explore(c, "single", 1, core.Pick(c, 5, 7), !c.Quick())
+	explore(c, "multisig", 2, core.Pick(c, 3, 7), !c.Quick())
 	c.Assume("signatures are a deterministic function of (key, sign bytes) (RFC 6979), so 'all signatures produced so far' is modelled as the set of all signatures the signer could have produced over the small field domains; every operation accepted on a state's first-found history is additionally replayed verbatim")
 	c.Assume("a failed verification or message is rolled back by the transaction (the check discards the CacheContext branch exactly as baseapp does); the client keeper's VerifyMembership / VerifyNonMembership are called directly, MsgUpdateClient goes through ValidateBasic and the message router")
 	c.Assume("misbehaviour signed by a rotated-out key or diversifier is not required to freeze the client (validity is judged against the client's current key and diversifier, as ICS-06 specifies)")
